@@ -341,3 +341,14 @@ func funcCandidates(v ssa.Value, depth int) []*ssa.Function {
 	}
 	return nil
 }
+
+// OriginsOf returns the abstract regions a value of fn may denote (nil when
+// fn has no body).
+func (a *Analyzer) OriginsOf(fn *ssa.Function, v ssa.Value) PathSet {
+	a.Summary(fn)
+	st := a.states[fn]
+	if st == nil {
+		return nil
+	}
+	return st.get(v)
+}
